@@ -90,6 +90,9 @@ def perturb(draw, t):
     if k == 'm':
         return gens._atom(draw, CFG) if draw(st.integers(0, 4)) == 0 else ('a', R.Y(0), R.E(t[1] % 3))
     if k in ('e', 's', 'y'): return t
+    # near misses that keep the shape: the other binder kind with the same id, the other binary connective
+    if k in ('E', 'M') and draw(st.integers(0, 3)) == 0: return ('M' if k == 'E' else 'E', t[1], perturb(draw, t[2]))
+    if k in ('i', 'a') and draw(st.integers(0, 7)) == 0: return ('a' if k == 'i' else 'i', perturb(draw, t[1]), perturb(draw, t[2]))
     if k == 'n': return ('n', t[1], tuple(perturb(draw, a) for a in t[2]))
     if k == 'inst': return ('inst', perturb(draw, t[1]), tuple((i, perturb(draw, a)) for i, a in t[2]))
     if k in ('i', 'a'): return (k, perturb(draw, t[1]), perturb(draw, t[2]))
